@@ -37,6 +37,31 @@ def main():
             except Exception as e:
                 rec["error"] = f"{type(e).__name__}: {str(e)[:200]}"
         out[vid] = rec
+    # the same generations again with every clock this process can read moved forward (1 hour, then ~30 years): generated
+    # text may not depend on when, or how long after start-up, it is generated
+    import time, datetime
+    real = (time.time, time.monotonic, time.perf_counter)
+    done = set()
+    try:
+        for shift, tag in ((3600.0, "clock+1h"), (1.0e9, "clock+30y")):
+            time.time = lambda r=real[0], s_=shift: r() + s_
+            time.monotonic = lambda r=real[1], s_=shift: r() + s_
+            time.perf_counter = lambda r=real[2], s_=shift: r() + s_
+            for vid, d in jobs:
+                di = vid.split(":")[0]
+                if (di, tag) in done:
+                    continue
+                done.add((di, tag))
+                with core.quiet():
+                    try:
+                        with cppharness.Scratch() as sc:
+                            r, header, source = cppharness.generate(d, {}, sc.dir, "det", ekf=True)
+                            out[vid][f"ekf_header@{tag}"] = open(header).read()
+                            out[vid][f"ekf_source@{tag}"] = open(source).read()
+                    except Exception as e:
+                        out[vid][f"error@{tag}"] = f"{type(e).__name__}: {str(e)[:200]}"
+    finally:
+        time.time, time.monotonic, time.perf_counter = real
     sys.stdout.write(json.dumps({"hashseed": os.environ.get("PYTHONHASHSEED"), "results": out}) + "\n")
 
 
